@@ -96,7 +96,7 @@ func init() {
 			}
 			// release values at the edge of what a format takes as a number
 			for _, f := range Formats {
-				for _, rel := range []string{"0", "00", "-1", "007", "1.5", "r2", "2rc", " 3"} {
+				for _, rel := range []string{"0", "00", "-1", "007", "1.5", "r2", "2rc", " 3", "010", "08", "0x10", "0o17", "1_0", "1e2", "+4"} {
 					for _, pre := range []string{"", "rc1"} {
 						for _, ep := range []string{"", "1"} {
 							c := baseMeta()
@@ -202,7 +202,7 @@ func init() {
 				}
 			}
 			for _, f := range Formats {
-				for _, tg := range []string{"file", "dir", "empty", "foreign-ext", "nested-missing-dir", "file-noext", "file-dotted-dir", "dir-symlink", "dir-trailing-slash", "file-symlink", "file-dollar", "dir-dollar", "dir-dotted"} {
+				for _, tg := range []string{"file", "dir", "empty", "foreign-ext", "nested-missing-dir", "file-noext", "file-dotted-dir", "dir-symlink", "dir-trailing-slash", "file-symlink", "file-dollar", "dir-dollar", "dir-dotted", "file-inner-ext"} {
 					for _, wp := range []bool{true, false} {
 						for _, pre := range []string{"", "rc1"} {
 							c := baseMeta()
@@ -447,6 +447,13 @@ func checkC15(env *engine.Env, ci any) engine.Outcome {
 		target = filepath.Join(work, "dist-1.2")
 		wantPath, wantFormat = filepath.Join(target, conv), f
 		wantFail = !c.WithP
+	case "file-inner-ext":
+		// another format's extension inside the name, this format's at the end
+		target = filepath.Join(work, "outdir", "myapp."+other+"-debug-1.2.3"+extOf[f])
+		if !c.WithP && f == "archlinux" {
+			target = filepath.Join(work, "outdir", "myapp."+other+"-debug-1.2.3.archlinux")
+		}
+		wantPath, wantFormat = target, f
 	case "file-noext":
 		// a file target without any extension that does not exist yet: still a file, at exactly that path
 		target = filepath.Join(work, "outdir", "mypackage")
